@@ -122,6 +122,18 @@ def int_shard(task):
                 else:
                     got = ("other", outcome.short(o))
             judge_int(part, kind, op, a, b, f"{path}{rk or ''}", got)
+        if idx % n == 0 and path in ("bound", "literal"):  # two adjacent unary minus signs: the inner one must still overflow / have no overload
+            for form, txt in (("neg-neg", "- - x" if path == "bound" else f"- - ({lit(kind, a)})"), ("neg-paren-neg", "-(-x)" if path == "bound" else f"-(-({lit(kind, a)}))")):
+                part.case()
+                inner = intarith.neg(kind, a)
+                exp2 = ERR if inner == ERR else intarith.neg(kind, inner)
+                o = celrun.evaluate(rk, txt, {"x": cls(a)}) if path == "bound" else celrun.evaluate(rk, txt)
+                got = ("val", o[2]) if (o[0] == "V" and o[1] in ("int", "uint")) else (("err",) if o[0] == "E" else ("other", outcome.short(o)))
+                part.outcome("err" if exp2 == ERR else "val")
+                if not ((got == ("err",)) if exp2 == ERR else (got == ("val", exp2))):
+                    k2 = "value-instead-of-error" if exp2 == ERR else ("error-instead-of-value" if got == ("err",) else "wrong-value")
+                    part.violation(k2, f"{kind}:{form}:{path}{rk}:{k2}:{iclass(kind, a)}", {"domain": kind, "op": form, "a": a, "b": None, "path": f"{path}{rk}"},
+                                   f"{kind} {txt} with x={a} via {path}{rk}: expected {exp2}, got {got}")
         if idx % n == 0:  # unary minus once per a
             part.case()
             if path in ("dunder", "reflected"):
@@ -253,7 +265,7 @@ def run(ctx):
         for name, s in ctx.part.spaces.items():
             if name.startswith(kind + "-pairs"):
                 s["cardinality"] = len(alpha) ** 2
-    exp_int = sum((len(a) ** 2 * 5 + len(a)) * npaths for a in (bi, bu))
+    exp_int = sum((len(a) ** 2 * 5 + len(a)) * npaths + len(a) * 2 * 4 for a in (bi, bu))
     fin = [v for v in dv if not math.isinf(v)]
     exp_dbl = (len(dv) ** 2 * 4 + len(dv)) * 5 + (len(fin) ** 2 * 4 + len(fin)) * 2
     ctx.coverage_extra["expected_cases"] = exp_int + exp_dbl
